@@ -1,6 +1,6 @@
 (* C09: resume after a crash gives the same result and never trusts an incomplete array. *)
 
-From CubedV Require Import Model.Util Model.Keys Model.Exec Model.ExecObs Proofs.ExecProofs.
+From CubedV Require Import Model.Util Model.Keys Model.Exec Model.ExecObs Model.Resume Proofs.ExecProofs Proofs.ResumeProofs.
 From Coq Require Import Permutation.
 
 
@@ -55,3 +55,35 @@ Print Assumptions C09_final_if_present_unrestricted_false.
 
 Example C09_resume_decision : resume_skips [(1,[0])] [(false, [(1,[0])]); (false, [(2,[0])]); (true, [(1,[0])])] = [true; false; false].
 Proof. reflexivity. Qed.
+
+(* -- Resume.v: already_computed in the shape the source is translated into on every run ---------------------------- *)
+Theorem C09_skipped_only_if_complete : forall outs,
+  already_computedZ true outs = Some true ->
+  (exists t, In t outs /\ t <> NoTarget) /\
+  forall t, In t outs -> t = NoTarget \/ exists nd n, t = Arr nd n n /\ nd <> 0%Z.
+Proof. exact (skipped_only_if_complete). Qed.
+Print Assumptions C09_skipped_only_if_complete.
+
+Theorem C09_complete_is_skipped : forall outs,
+  (exists t, In t outs /\ t <> NoTarget) ->
+  (forall t, In t outs -> t = NoTarget \/ exists nd n, t = Arr nd n n /\ nd <> 0%Z) ->
+  already_computedZ true outs = Some true.
+Proof. exact (complete_is_skipped). Qed.
+Print Assumptions C09_complete_is_skipped.
+
+Theorem C09_create_arrays_never_skipped : forall outs, (forall t, In t outs -> t = NoTarget) -> already_computedZ true outs = Some false.
+Proof. exact (create_arrays_never_skipped). Qed.
+Print Assumptions C09_create_arrays_never_skipped.
+
+Theorem C09_incomplete_output_not_skipped : forall outs t,
+  In t outs -> (t = Missing \/ exists nd nci n, t = Arr nd nci n /\ (nd = 0%Z \/ nci <> n)) ->
+  already_computedZ true outs <> Some true.
+Proof. exact (incomplete_output_not_skipped). Qed.
+Print Assumptions C09_incomplete_output_not_skipped.
+
+Example C09_already_computed_example :
+  already_computedZ true [NoTarget; Arr 1 4 4; Arr 2 6 6] = Some true /\
+  already_computedZ true [Arr 1 2 4] = Some false /\ already_computedZ true [Arr 0 1 1] = Some false /\
+  already_computedZ true [Arr 1 4 4; Missing] = Some false /\ already_computedZ true [NoTarget] = Some false /\
+  already_computedZ true [NoProp] = None.
+Proof. vm_compute. repeat split. Qed.
